@@ -219,7 +219,13 @@ def main():
     for pid in ALL:
         if pid not in CHECKS or not os.path.exists(os.path.join(ROOT, "props", pid + ".py")):
             continue
-        c = CHECKS[pid]
+        c = dict(CHECKS[pid])
+        # the level a driver writes into its evidence file is authoritative: read it from the driver source
+        import re as _re
+        src = open(os.path.join(ROOT, "props", pid + ".py")).read()
+        m = _re.search(r'Ctx\(\s*"%s"\s*,\s*tier\s*,\s*"(\w+)"' % pid, src)
+        if m:
+            c["category"] = m.group(1)
         e = {"property_id": pid,
              "quick_cmd": "./check %s --tier quick" % pid,
              "evidence_file": "evidence/%s.json" % pid,
